@@ -1228,3 +1228,430 @@ Theorem hubbard_atom_chi_chain_part :
   hub_chain_sum = Qcanon.Q2Qc (QArith_base.Qmake (-44)%Z 459%positive) /\ hub_chain_sum <> n0 _ QcD.
 Proof. exact SpineChiExamples.hub_chain_part. Qed.
 Print Assumptions hubbard_atom_chi_chain_part.
+
+(** * Stage 5, completed: the two-particle spine for ANY partition (PV.SpineChiJW, PV.SpineChiPartitionPrep, PV.SpineChiPartition,
+    PV.SpineChiBridge, PV.SpineChiPartitionExamples).  The three lemmas listed as MISSING above are proved:
+      (5) [chi_first_tgt_c] / [chi_first_tgt_cdag]   c_i maps the label 2^i, c^+_i the vacuum, to a basis state: first_tgt <> None for i < M;
+                                                     hence [spine_chi_one_block_general], the one-block theorem for SpineChi.spine_chi
+                                                     with no hypothesis on the operators;
+      (2) [chi_prepare_chain_ok]                     chain_ok: on the world built from Spine.op_compute's parts, the loop body of
+                                                     TwoParticleGF::prepare for the pair (L3, L0) of CX4's bimap and one ordering (A, B, C)
+                                                     creates a part iff (L0, L1), (L1, L2), (L2, L3) are recorded for A, B, C, and the part
+                                                     is SpineChiChain.chain_part on the stored dense parts, eigenvalues and weights of the
+                                                     four blocks; the six iterations are the six orderings ([chi_prepare_six_orderings]);
+                                                     the value of such a part is sign * the block sum ([chi_chain_part_value]);
+      (3) [chi_ordering_sum_over_chains]             the four-fold regrouping: EDSpec.chi_ordering on the assembled data is the sum over
+                                                     CX4's pairs of the block sums of the chains prepare() creates; chains that are not
+                                                     recorded contribute 0 (SpinePartition.rot_term_zero).
+    RESULT: [spine_chi_partition] (any [partition_ok] S with [op_ok] for c_i, c_j, c^+_k, c^+_l: pipeline value = EDSpec.chi of the
+    assembled eigen-data and the rotated Jordan-Wigner operators, at every triple satisfying [chi_regular6] on the assembled data),
+    [spine_chi_partition_total] (the pipeline returns), [spine_chi_symmetry_partition] / [spine_chi_symmetry_analysis] (the bridged
+    partition of the Symm model: partition_ok / op_ok DISCHARGED from C07), [spine_chi_of_hamiltonian] (everything in one statement).
+    HYPOTHESES that remain, all on the input: field with ofZ additive / non-zero on positive integers / ofZ 1 = 1 / ofZ(-1) = -1; exact
+    value tests; [cmp_exact] for both comparator tolerances on the level differences of the ASSEMBLED eigenvalues; [chi_regular6];
+    [eig_ok] (shapes); for [spine_chi_of_hamiltonian] the exact certificate of the eigen-solver per block.
+    NOT covered: the tolerance forms; FieldOperatorContainer's adjoint route; the frequency table filled by compute() (C02's
+    table_eq_on_demand relates it to the on-demand value). *)
+From PV Require Import SpineChiJW SpineChiPartitionPrep SpineChiPartition SpineChiBridge SpineChiPartitionExamples.
+
+Theorem chi_first_tgt_c :
+  forall (K : Type) (NO : numops K) (M i : nat), i < M -> first_tgt K NO M (FC i) (seq 0 (Nat.pow 2 M)) <> None.
+Proof. exact SpineChiJW.first_tgt_c. Qed.
+Print Assumptions chi_first_tgt_c.
+
+Theorem chi_first_tgt_cdag :
+  forall (K : Type) (NO : numops K) (M i : nat), i < M -> first_tgt K NO M (FCdag i) (seq 0 (Nat.pow 2 M)) <> None.
+Proof. exact SpineChiJW.first_tgt_cdag. Qed.
+Print Assumptions chi_first_tgt_cdag.
+
+(** [spine_chi_one_block_op_compute_partial] without its four hypotheses on the operators *)
+Theorem spine_chi_one_block_general :
+  forall (K : Type) (NO : numops K),
+  field_theory (n0 K NO) (n1 K NO) (nadd K NO) (nmul K NO) (nsub K NO) (nopp K NO) (ndiv K NO) (ChiLehmann.kinv K NO) (@eq K) ->
+  nconj K NO (n0 K NO) = n0 K NO ->
+  forall (fb : bool) (eps : K),
+  nre_ltb K NO (nabs K NO (n1 K NO)) eps = false -> nre_ltb K NO (nabs K NO (nopp K NO (n1 K NO))) eps = false ->
+  nre_ltb K NO eps (nabs K NO (n1 K NO)) = true -> nre_ltb K NO eps (nabs K NO (nopp K NO (n1 K NO))) = true ->
+  forall keepf : K -> bool,
+  (forall x : K, keepf x = false -> x = n0 K NO) ->
+  forall tl : Chi.tols K,
+  (forall x : K, abs_gt K NO x (t_coeff K tl) = false -> x = n0 K NO) ->
+  (forall x : K, nre_ltb K NO (n0 K NO) (nabs K NO x) = false -> x = n0 K NO) ->
+  (forall (x : K) (d : nat), abs_lt K NO x (ndiv K NO (t_neg_nr K tl) (nofZ K NO (Z.of_nat d))) = true -> x = n0 K NO) ->
+  (forall (x : K) (d : nat), abs_lt K NO x (ndiv K NO (t_neg_r K tl) (nofZ K NO (Z.of_nat d))) = true -> x = n0 K NO) ->
+  nofZ K NO 1%Z = n1 K NO -> nofZ K NO (-1)%Z = nopp K NO (n1 K NO) ->
+  (forall a b : Z, nofZ K NO (a + b)%Z = nadd K NO (nofZ K NO a) (nofZ K NO b)) ->
+  (forall z : Z, (0 < z)%Z -> nofZ K NO z <> n0 K NO) ->
+  forall (g M : nat) (E : list K) (U : mat K) (beta : K) (i j k l : nat),
+  length E = Nat.pow 2 M -> square K (Nat.pow 2 M) U ->
+  i < M -> j < M -> k < M -> l < M ->
+  cmp_exact K NO (t_cmp_nr K tl) (pole_list K NO (Nat.pow 2 M) E) ->
+  cmp_exact K NO (t_cmp_r K tl) (pole_list K NO (Nat.pow 2 M) E) ->
+  forall (z1 z2 z3 : K) (s : gf_st K),
+  chi_regular6 K NO tl (Nat.pow 2 M) E (weights K NO beta E) z1 z2 z3 ->
+  spine_chi K NO keepf fb eps g tl (one_block M) [(E, U)] beta i j k l = Done s ->
+  Chi.gf_value K NO tl s z1 z2 z3 =
+  Done (chi K NO beta (t_reduce K tl) E (weights K NO beta E)
+          (rotate K NO (Nat.pow 2 M) U (op_matrix K NO M (cann i))) (rotate K NO (Nat.pow 2 M) U (op_matrix K NO M (cann j)))
+          (rotate K NO (Nat.pow 2 M) U (op_matrix K NO M (cdag k))) (rotate K NO (Nat.pow 2 M) U (op_matrix K NO M (cdag l)))
+          z1 z2 z3).
+Proof. exact SpineChiJW.spine_chi_one_block_general. Qed.
+Print Assumptions spine_chi_one_block_general.
+
+(** (2) chain_ok.  [opdata] = one field operator as the layers below hand it over: [op_ok] (C07) for its recorded pairs [od_prs] and the
+    parts [od_parts] returned by Spine.op_compute (C10); [od_fo] = what TwoParticleGF reads of it (SpineChi.chi_fieldop);
+    [prepare_ops] = Chi.prepare_one with the three operators of the ordering made explicit; [chainp] = SpineChiChain.chain_part on the
+    stored dense parts, eigenvalues and weights of the blocks L0 .. L3 *)
+Theorem chi_prepare_six_orderings :
+  forall (K : Type) (w : Chi.world K) (lr : Z * Z),
+  map (prepare_one K w lr) (seq 0 6) =
+  [ prepare_ops K w (w_C1 K w) (w_C2 K w) (w_CX3 K w) (0, 1, 2) 1%Z lr;
+    prepare_ops K w (w_C1 K w) (w_CX3 K w) (w_C2 K w) (0, 2, 1) (-1)%Z lr;
+    prepare_ops K w (w_C2 K w) (w_C1 K w) (w_CX3 K w) (1, 0, 2) (-1)%Z lr;
+    prepare_ops K w (w_C2 K w) (w_CX3 K w) (w_C1 K w) (1, 2, 0) 1%Z lr;
+    prepare_ops K w (w_CX3 K w) (w_C1 K w) (w_C2 K w) (2, 0, 1) 1%Z lr;
+    prepare_ops K w (w_CX3 K w) (w_C2 K w) (w_C1 K w) (2, 1, 0) (-1)%Z lr ].
+Proof. exact SpineChiPartitionPrep.prepare_one_cases. Qed.
+Print Assumptions chi_prepare_six_orderings.
+
+Theorem chi_prepare_chain_ok :
+  forall (K : Type) (NO : numops K),
+  field_theory (n0 K NO) (n1 K NO) (nadd K NO) (nmul K NO) (nsub K NO) (nopp K NO) (ndiv K NO) (ChiLehmann.kinv K NO) (@eq K) ->
+  forall (fb : bool) (eps : K),
+  nre_ltb K NO (nabs K NO (n1 K NO)) eps = false -> nre_ltb K NO (nabs K NO (nopp K NO (n1 K NO))) eps = false ->
+  nre_ltb K NO eps (nabs K NO (n1 K NO)) = true -> nre_ltb K NO eps (nabs K NO (nopp K NO (n1 K NO))) = true ->
+  forall (keepf : K -> bool) (S : classification) (ED : eigdata K),
+  partition_ok S -> eig_ok K S ED ->
+  forall D : list (Thermal.dmpart K), dm_ok K NO S D ->
+  forall (beta : K) (w : Chi.world K) (dA dB dC dX : opdata K NO fb eps S ED) (perm : nat * nat * nat) (sg : Z) (L3 L0 : nat),
+  w_E K w = map fst ED -> w_W K w = map (Thermal.dp_weights K) D -> w_ret K w = map (Thermal.dp_retained K) D ->
+  w_beta K w = beta -> w_CX4 K w = od_fo K NO fb eps keepf S ED dX ->
+  In (L3, L0) (od_prs K NO fb eps S ED dX) ->
+  prepare_ops K w (od_fo K NO fb eps keepf S ED dA) (od_fo K NO fb eps keepf S ED dB) (od_fo K NO fb eps keepf S ED dC) perm sg (zp (L3, L0)) =
+  Done (match rgt (od_prs K NO fb eps S ED dA) L0, lft (od_prs K NO fb eps S ED dC) L3 with
+        | Some L1, Some L2 =>
+            if GFFullProofs.memb (L1, L2) (od_prs K NO fb eps S ED dB)
+            then Some (chainp K NO fb eps keepf S ED D beta dA dB dC dX perm sg L0 L1 L2 L3) else None
+        | _, _ => None
+        end).
+Proof. exact SpineChiPartitionPrep.prepare_ops_spec. Qed.
+Print Assumptions chi_prepare_chain_ok.
+
+(** the value of the part of a recorded chain: sign * the sum of the FULL-SPACE summand over the states of the four blocks ([Qsum]) *)
+Theorem chi_chain_part_value :
+  forall (K : Type) (NO : numops K),
+  field_theory (n0 K NO) (n1 K NO) (nadd K NO) (nmul K NO) (nsub K NO) (nopp K NO) (ndiv K NO) (ChiLehmann.kinv K NO) (@eq K) ->
+  nconj K NO (n0 K NO) = n0 K NO ->
+  forall (fb : bool) (eps : K),
+  nre_ltb K NO (nabs K NO (n1 K NO)) eps = false -> nre_ltb K NO (nabs K NO (nopp K NO (n1 K NO))) eps = false ->
+  nre_ltb K NO eps (nabs K NO (n1 K NO)) = true -> nre_ltb K NO eps (nabs K NO (nopp K NO (n1 K NO))) = true ->
+  forall keepf : K -> bool,
+  (forall x : K, keepf x = false -> x = n0 K NO) ->
+  forall (S : classification) (ED : eigdata K),
+  partition_ok S -> eig_ok K S ED ->
+  forall D : list (Thermal.dmpart K), dm_ok K NO S D ->
+  forall (beta : K) (tl : Chi.tols K),
+  (forall x : K, abs_gt K NO x (t_coeff K tl) = false -> x = n0 K NO) ->
+  (forall (x : K) (d : nat), abs_lt K NO x (ndiv K NO (t_neg_nr K tl) (nofZ K NO (Z.of_nat d))) = true -> x = n0 K NO) ->
+  (forall (x : K) (d : nat), abs_lt K NO x (ndiv K NO (t_neg_r K tl) (nofZ K NO (Z.of_nat d))) = true -> x = n0 K NO) ->
+  (forall a b : Z, nofZ K NO (a + b)%Z = nadd K NO (nofZ K NO a) (nofZ K NO b)) ->
+  (forall z : Z, (0 < z)%Z -> nofZ K NO z <> n0 K NO) ->
+  forall g : nat,
+  cmp_exact K NO (t_cmp_nr K tl) (pole_list K NO (state_size S) (assembled_E K ED)) ->
+  cmp_exact K NO (t_cmp_r K tl) (pole_list K NO (state_size S) (assembled_E K ED)) ->
+  forall (dA dB dC dX : opdata K NO fb eps S ED) (perm : nat * nat * nat) (sg : Z) (L0 L1 L2 L3 : nat) (z1 z2 z3 : K),
+  In (L0, L1) (od_prs K NO fb eps S ED dA) -> In (L1, L2) (od_prs K NO fb eps S ED dB) ->
+  In (L2, L3) (od_prs K NO fb eps S ED dC) -> In (L3, L0) (od_prs K NO fb eps S ED dX) ->
+  chi_regular K NO tl (state_size S) (assembled_E K ED) (assembled_w K D)
+    (permuted K NO perm z1 z2 z3 0) (permuted K NO perm z1 z2 z3 1) (permuted K NO perm z1 z2 z3 2) ->
+  part_val K NO tl (chainp K NO fb eps keepf S ED D beta dA dB dC dX perm sg L0 L1 L2 L3)
+    (computed_st K NO g tl (chainp K NO fb eps keepf S ED D beta dA dB dC dX perm sg L0 L1 L2 L3)) (z1, z2, z3) =
+  nmul K NO (signK K NO sg)
+    (Qsum K NO fb eps S ED D beta tl dA dB dC dX (permuted K NO perm z1 z2 z3 0) (permuted K NO perm z1 z2 z3 1) (permuted K NO perm z1 z2 z3 2)
+          L0 L1 L2 L3).
+Proof. exact SpineChiPartitionPrep.chainp_value. Qed.
+Print Assumptions chi_chain_part_value.
+
+(** (3) the four-fold regrouping ([od_X] = the operator rotated by the assembled eigenvector matrix, on the full space) *)
+Theorem chi_ordering_sum_over_chains :
+  forall (K : Type) (NO : numops K),
+  field_theory (n0 K NO) (n1 K NO) (nadd K NO) (nmul K NO) (nsub K NO) (nopp K NO) (ndiv K NO) (ChiLehmann.kinv K NO) (@eq K) ->
+  nconj K NO (n0 K NO) = n0 K NO ->
+  forall (fb : bool) (eps : K) (S : classification) (ED : eigdata K),
+  partition_ok S -> eig_ok K S ED ->
+  forall (D : list (Thermal.dmpart K)) (beta : K) (tl : Chi.tols K),
+  (forall x : K, nre_ltb K NO (n0 K NO) (nabs K NO x) = false -> x = n0 K NO) ->
+  forall (dA dB dC dX : opdata K NO fb eps S ED) (y1 y2 y3 : K),
+  chi_ordering K NO beta (t_reduce K tl) (assembled_E K ED) (assembled_w K D)
+    (od_X K NO fb eps S ED dA) (od_X K NO fb eps S ED dB) (od_X K NO fb eps S ED dC) (od_X K NO fb eps S ED dX) y1 y2 y3 =
+  ChiLehmann.lsum K NO (od_prs K NO fb eps S ED dX) (fun lr : nat * nat =>
+    match rgt (od_prs K NO fb eps S ED dA) (snd lr), lft (od_prs K NO fb eps S ED dC) (fst lr) with
+    | Some L1, Some L2 =>
+        if GFFullProofs.memb (L1, L2) (od_prs K NO fb eps S ED dB)
+        then Qsum K NO fb eps S ED D beta tl dA dB dC dX y1 y2 y3 (snd lr) L1 L2 (fst lr) else n0 K NO
+    | _, _ => n0 K NO
+    end).
+Proof. exact SpineChiPartitionPrep.ordering_sum. Qed.
+Print Assumptions chi_ordering_sum_over_chains.
+
+(** THE FULL STATEMENT of Stage 5 *)
+Theorem spine_chi_partition :
+  forall (K : Type) (NO : numops K),
+  field_theory (n0 K NO) (n1 K NO) (nadd K NO) (nmul K NO) (nsub K NO) (nopp K NO) (ndiv K NO) (ChiLehmann.kinv K NO) (@eq K) ->
+  nconj K NO (n0 K NO) = n0 K NO ->
+  forall (fb : bool) (eps : K),
+  nre_ltb K NO (nabs K NO (n1 K NO)) eps = false -> nre_ltb K NO (nabs K NO (nopp K NO (n1 K NO))) eps = false ->
+  nre_ltb K NO eps (nabs K NO (n1 K NO)) = true -> nre_ltb K NO eps (nabs K NO (nopp K NO (n1 K NO))) = true ->
+  forall keepf : K -> bool,
+  (forall x : K, keepf x = false -> x = n0 K NO) ->
+  forall tl : Chi.tols K,
+  (forall x : K, abs_gt K NO x (t_coeff K tl) = false -> x = n0 K NO) ->
+  (forall x : K, nre_ltb K NO (n0 K NO) (nabs K NO x) = false -> x = n0 K NO) ->
+  (forall (x : K) (d : nat), abs_lt K NO x (ndiv K NO (t_neg_nr K tl) (nofZ K NO (Z.of_nat d))) = true -> x = n0 K NO) ->
+  (forall (x : K) (d : nat), abs_lt K NO x (ndiv K NO (t_neg_r K tl) (nofZ K NO (Z.of_nat d))) = true -> x = n0 K NO) ->
+  nofZ K NO 1%Z = n1 K NO -> nofZ K NO (-1)%Z = nopp K NO (n1 K NO) ->
+  (forall a b : Z, nofZ K NO (a + b)%Z = nadd K NO (nofZ K NO a) (nofZ K NO b)) ->
+  (forall z : Z, (0 < z)%Z -> nofZ K NO z <> n0 K NO) ->
+  forall (g : nat) (S : classification) (ED : eigdata K) (beta : K) (i j k l : nat) (prs1 prs2 prs3 prs4 : list (nat * nat)),
+  partition_ok S ->                                        (* C07_partition_exact *)
+  eig_ok K S ED ->                                         (* shapes *)
+  op_ok K NO fb eps S (FC i) prs1 -> op_ok K NO fb eps S (FC j) prs2 ->            (* C07_single_target for c_i, c_j *)
+  op_ok K NO fb eps S (FCdag k) prs3 -> op_ok K NO fb eps S (FCdag l) prs4 ->      (*                    for c^+_k, c^+_l *)
+  cmp_exact K NO (t_cmp_nr K tl) (pole_list K NO (state_size S) (assembled_E K ED)) ->
+  cmp_exact K NO (t_cmp_r K tl) (pole_list K NO (state_size S) (assembled_E K ED)) ->
+  forall s : gf_st K,
+  spine_chi K NO keepf fb eps g tl S ED beta i j k l = Done s ->
+  exists D, spine_dm K NO beta S ED = Done D /\
+    forall z1 z2 z3 : K,
+    chi_regular6 K NO tl (state_size S) (assembled_E K ED) (assembled_w K D) z1 z2 z3 ->
+    Chi.gf_value K NO tl s z1 z2 z3 =
+    Done (chi K NO beta (t_reduce K tl) (assembled_E K ED) (assembled_w K D)
+            (rotate K NO (state_size S) (assembled_U K NO S ED) (op_matrix K NO (sc_M S) (cann i)))
+            (rotate K NO (state_size S) (assembled_U K NO S ED) (op_matrix K NO (sc_M S) (cann j)))
+            (rotate K NO (state_size S) (assembled_U K NO S ED) (op_matrix K NO (sc_M S) (cdag k)))
+            (rotate K NO (state_size S) (assembled_U K NO S ED) (op_matrix K NO (sc_M S) (cdag l)))
+            z1 z2 z3).
+Proof. exact SpineChiPartition.spine_chi_partition. Qed.
+Print Assumptions spine_chi_partition.
+
+(** the pipeline returns whenever the density matrix does: no part lookup of TwoParticleGF::prepare fails, the merge walks terminate *)
+Theorem spine_chi_partition_total :
+  forall (K : Type) (NO : numops K),
+  field_theory (n0 K NO) (n1 K NO) (nadd K NO) (nmul K NO) (nsub K NO) (nopp K NO) (ndiv K NO) (ChiLehmann.kinv K NO) (@eq K) ->
+  forall (fb : bool) (eps : K),
+  nre_ltb K NO (nabs K NO (n1 K NO)) eps = false -> nre_ltb K NO (nabs K NO (nopp K NO (n1 K NO))) eps = false ->
+  nre_ltb K NO eps (nabs K NO (n1 K NO)) = true -> nre_ltb K NO eps (nabs K NO (nopp K NO (n1 K NO))) = true ->
+  forall (keepf : K -> bool) (tl : Chi.tols K) (g : nat) (S : classification) (ED : eigdata K) (beta : K) (i j k l : nat)
+         (prs1 prs2 prs3 prs4 : list (nat * nat)),
+  partition_ok S -> eig_ok K S ED ->
+  op_ok K NO fb eps S (FC i) prs1 -> op_ok K NO fb eps S (FC j) prs2 ->
+  op_ok K NO fb eps S (FCdag k) prs3 -> op_ok K NO fb eps S (FCdag l) prs4 ->
+  forall D, spine_dm K NO beta S ED = Done D ->
+  exists s, spine_chi K NO keepf fb eps g tl S ED beta i j k l = Done s.
+Proof. exact SpineChiPartition.spine_chi_partition_total. Qed.
+Print Assumptions spine_chi_partition_total.
+
+(** on the partition produced by the symmetry-analysis model: partition_ok / op_ok DISCHARGED (bridge_partition_ok_from_C07, bridge_op_ok_from_C07) *)
+Theorem spine_chi_symmetry_partition :
+  forall (KS : Type) (s0 s1 : KS) (sadd smul ssub : KS -> KS -> KS) (sopp : KS -> KS) (szero : KS -> bool),
+  ring_ok KS s0 s1 sadd smul ssub sopp szero -> s1 <> s0 ->
+  forall (K : Type) (NO : numops K),
+  field_theory (n0 K NO) (n1 K NO) (nadd K NO) (nmul K NO) (nsub K NO) (nopp K NO) (ndiv K NO) (ChiLehmann.kinv K NO) (@eq K) ->
+  nconj K NO (n0 K NO) = n0 K NO ->
+  forall (fb : bool) (eps : K),
+  nre_ltb K NO (nabs K NO (n1 K NO)) eps = false -> nre_ltb K NO (nabs K NO (nopp K NO (n1 K NO))) eps = false ->
+  nre_ltb K NO eps (nabs K NO (n1 K NO)) = true -> nre_ltb K NO eps (nabs K NO (nopp K NO (n1 K NO))) = true ->
+  forall keepf : K -> bool,
+  (forall x : K, keepf x = false -> x = n0 K NO) ->
+  forall tl : Chi.tols K,
+  (forall x : K, abs_gt K NO x (t_coeff K tl) = false -> x = n0 K NO) ->
+  (forall x : K, nre_ltb K NO (n0 K NO) (nabs K NO x) = false -> x = n0 K NO) ->
+  (forall (x : K) (d : nat), abs_lt K NO x (ndiv K NO (t_neg_nr K tl) (nofZ K NO (Z.of_nat d))) = true -> x = n0 K NO) ->
+  (forall (x : K) (d : nat), abs_lt K NO x (ndiv K NO (t_neg_r K tl) (nofZ K NO (Z.of_nat d))) = true -> x = n0 K NO) ->
+  nofZ K NO 1%Z = n1 K NO -> nofZ K NO (-1)%Z = nopp K NO (n1 K NO) ->
+  (forall a b : Z, nofZ K NO (a + b)%Z = nadd K NO (nofZ K NO a) (nofZ K NO b)) ->
+  (forall z : Z, (0 < z)%Z -> nofZ K NO z <> n0 K NO) ->
+  forall (g N : nat) (ops : list (poly KS)) (c : Symm.qclass KS),
+  Forall (poly_in_range KS N) ops ->
+  Symm.sc_compute KS s0 sadd ssub sopp szero N ops = Done c ->
+  Forall (SymmProofs.uniform_shift KS s0 s1 sadd smul sopp N) ops ->
+  forall (ED : eigdata K) (beta : K) (i j k l : nat), i < N -> j < N -> k < N -> l < N ->
+  eig_ok K (bridge N c) ED ->
+  cmp_exact K NO (t_cmp_nr K tl) (pole_list K NO (Nat.pow 2 N) (assembled_E K ED)) ->
+  cmp_exact K NO (t_cmp_r K tl) (pole_list K NO (Nat.pow 2 N) (assembled_E K ED)) ->
+  forall s : gf_st K,
+  spine_chi K NO keepf fb eps g tl (bridge N c) ED beta i j k l = Done s ->
+  exists D, spine_dm K NO beta (bridge N c) ED = Done D /\
+    forall z1 z2 z3 : K,
+    chi_regular6 K NO tl (Nat.pow 2 N) (assembled_E K ED) (assembled_w K D) z1 z2 z3 ->
+    Chi.gf_value K NO tl s z1 z2 z3 =
+    Done (chi K NO beta (t_reduce K tl) (assembled_E K ED) (assembled_w K D)
+            (rotate K NO (Nat.pow 2 N) (assembled_U K NO (bridge N c) ED) (op_matrix K NO N (cann i)))
+            (rotate K NO (Nat.pow 2 N) (assembled_U K NO (bridge N c) ED) (op_matrix K NO N (cann j)))
+            (rotate K NO (Nat.pow 2 N) (assembled_U K NO (bridge N c) ED) (op_matrix K NO N (cdag k)))
+            (rotate K NO (Nat.pow 2 N) (assembled_U K NO (bridge N c) ED) (op_matrix K NO N (cdag l)))
+            z1 z2 z3).
+Proof. exact SpineChiBridge.spine_chi_symmetry. Qed.
+Print Assumptions spine_chi_symmetry_partition.
+
+Theorem spine_chi_symmetry_partition_total :
+  forall (KS : Type) (s0 s1 : KS) (sadd smul ssub : KS -> KS -> KS) (sopp : KS -> KS) (szero : KS -> bool),
+  ring_ok KS s0 s1 sadd smul ssub sopp szero -> s1 <> s0 ->
+  forall (K : Type) (NO : numops K),
+  field_theory (n0 K NO) (n1 K NO) (nadd K NO) (nmul K NO) (nsub K NO) (nopp K NO) (ndiv K NO) (ChiLehmann.kinv K NO) (@eq K) ->
+  forall (fb : bool) (eps : K),
+  nre_ltb K NO (nabs K NO (n1 K NO)) eps = false -> nre_ltb K NO (nabs K NO (nopp K NO (n1 K NO))) eps = false ->
+  nre_ltb K NO eps (nabs K NO (n1 K NO)) = true -> nre_ltb K NO eps (nabs K NO (nopp K NO (n1 K NO))) = true ->
+  forall (keepf : K -> bool) (tl : Chi.tols K) (g N : nat) (ops : list (poly KS)) (c : Symm.qclass KS),
+  Forall (poly_in_range KS N) ops ->
+  Symm.sc_compute KS s0 sadd ssub sopp szero N ops = Done c ->
+  Forall (SymmProofs.uniform_shift KS s0 s1 sadd smul sopp N) ops ->
+  forall (ED : eigdata K) (beta : K) (i j k l : nat), i < N -> j < N -> k < N -> l < N ->
+  eig_ok K (bridge N c) ED ->
+  forall D, spine_dm K NO beta (bridge N c) ED = Done D ->
+  exists s, spine_chi K NO keepf fb eps g tl (bridge N c) ED beta i j k l = Done s.
+Proof. exact SpineChiBridge.spine_chi_symmetry_total. Qed.
+Print Assumptions spine_chi_symmetry_partition_total.
+
+(** ... on the operators ACCEPTED by the symmetry analysis of a Hamiltonian polynomial h (as [spine_gf_symmetry_analysis]) *)
+Theorem spine_chi_symmetry_analysis :
+  forall (KS : Type) (s0 s1 : KS) (sadd smul ssub : KS -> KS -> KS) (sopp : KS -> KS) (szero : KS -> bool) (shalf : KS),
+  ring_ok KS s0 s1 sadd smul ssub sopp szero -> s1 <> s0 ->
+  forall (K : Type) (NO : numops K),
+  field_theory (n0 K NO) (n1 K NO) (nadd K NO) (nmul K NO) (nsub K NO) (nopp K NO) (ndiv K NO) (ChiLehmann.kinv K NO) (@eq K) ->
+  nconj K NO (n0 K NO) = n0 K NO ->
+  forall (fb : bool) (eps : K),
+  nre_ltb K NO (nabs K NO (n1 K NO)) eps = false -> nre_ltb K NO (nabs K NO (nopp K NO (n1 K NO))) eps = false ->
+  nre_ltb K NO eps (nabs K NO (n1 K NO)) = true -> nre_ltb K NO eps (nabs K NO (nopp K NO (n1 K NO))) = true ->
+  forall keepf : K -> bool,
+  (forall x : K, keepf x = false -> x = n0 K NO) ->
+  forall tl : Chi.tols K,
+  (forall x : K, abs_gt K NO x (t_coeff K tl) = false -> x = n0 K NO) ->
+  (forall x : K, nre_ltb K NO (n0 K NO) (nabs K NO x) = false -> x = n0 K NO) ->
+  (forall (x : K) (d : nat), abs_lt K NO x (ndiv K NO (t_neg_nr K tl) (nofZ K NO (Z.of_nat d))) = true -> x = n0 K NO) ->
+  (forall (x : K) (d : nat), abs_lt K NO x (ndiv K NO (t_neg_r K tl) (nofZ K NO (Z.of_nat d))) = true -> x = n0 K NO) ->
+  nofZ K NO 1%Z = n1 K NO -> nofZ K NO (-1)%Z = nopp K NO (n1 K NO) ->
+  (forall a b : Z, nofZ K NO (a + b)%Z = nadd K NO (nofZ K NO a) (nofZ K NO b)) ->
+  (forall z : Z, (0 < z)%Z -> nofZ K NO z <> n0 K NO) ->
+  forall (g : nat) (fz sf : bool) (mode : Symm.symm_mode KS) (spins : list nat) (h : poly KS) (sy : Symm.symm KS),
+  mode_uniform KS sf mode (length spins) ->
+  Symm.symmetrize KS s0 s1 sadd smul ssub sopp szero shalf fz sf mode spins h = Done sy ->
+  exists c, Symm.sc_compute KS s0 sadd ssub sopp szero (length spins) (Symm.sy_ops sy) = Done c /\
+    forall (ED : eigdata K) (beta : K) (i j k l : nat), i < length spins -> j < length spins -> k < length spins -> l < length spins ->
+    eig_ok K (bridge (length spins) c) ED ->
+    cmp_exact K NO (t_cmp_nr K tl) (pole_list K NO (Nat.pow 2 (length spins)) (assembled_E K ED)) ->
+    cmp_exact K NO (t_cmp_r K tl) (pole_list K NO (Nat.pow 2 (length spins)) (assembled_E K ED)) ->
+    forall s : gf_st K,
+    spine_chi K NO keepf fb eps g tl (bridge (length spins) c) ED beta i j k l = Done s ->
+    exists D, spine_dm K NO beta (bridge (length spins) c) ED = Done D /\
+      forall z1 z2 z3 : K,
+      chi_regular6 K NO tl (Nat.pow 2 (length spins)) (assembled_E K ED) (assembled_w K D) z1 z2 z3 ->
+      Chi.gf_value K NO tl s z1 z2 z3 =
+      Done (chi K NO beta (t_reduce K tl) (assembled_E K ED) (assembled_w K D)
+              (rotate K NO (Nat.pow 2 (length spins)) (assembled_U K NO (bridge (length spins) c) ED) (op_matrix K NO (length spins) (cann i)))
+              (rotate K NO (Nat.pow 2 (length spins)) (assembled_U K NO (bridge (length spins) c) ED) (op_matrix K NO (length spins) (cann j)))
+              (rotate K NO (Nat.pow 2 (length spins)) (assembled_U K NO (bridge (length spins) c) ED) (op_matrix K NO (length spins) (cdag k)))
+              (rotate K NO (Nat.pow 2 (length spins)) (assembled_U K NO (bridge (length spins) c) ED) (op_matrix K NO (length spins) (cdag l)))
+              z1 z2 z3).
+Proof. exact SpineChiBridge.spine_chi_symmetry_analysis. Qed.
+Print Assumptions spine_chi_symmetry_analysis.
+
+(** EVERYTHING IN ONE STATEMENT for the two-particle function (one number type: a field with exact zero tests): Hamiltonian polynomial ->
+    symmetry analysis -> blocks -> certified eigen-data -> chi_ijkl(z1, z2; z3) = EDSpec.chi of an exact eigen-decomposition of the
+    Jordan-Wigner matrix of h *)
+Theorem spine_chi_of_hamiltonian :
+  forall (K : Type) (NO : numops K),
+  field_theory (n0 K NO) (n1 K NO) (nadd K NO) (nmul K NO) (nsub K NO) (nopp K NO) (ndiv K NO) (ChiLehmann.kinv K NO) (@eq K) ->
+  forall (kzero : K -> bool) (khalf : K),
+  (forall x : K, kzero x = true <-> x = n0 K NO) ->
+  nconj K NO (n0 K NO) = n0 K NO ->
+  forall (fb : bool) (eps : K),
+  nre_ltb K NO (nabs K NO (n1 K NO)) eps = false -> nre_ltb K NO (nabs K NO (nopp K NO (n1 K NO))) eps = false ->
+  nre_ltb K NO eps (nabs K NO (n1 K NO)) = true -> nre_ltb K NO eps (nabs K NO (nopp K NO (n1 K NO))) = true ->
+  (forall x : K, is_zero K NO eps x = true <-> x = n0 K NO) ->
+  forall keepf : K -> bool,
+  (forall x : K, keepf x = false -> x = n0 K NO) ->
+  forall tl : Chi.tols K,
+  (forall x : K, abs_gt K NO x (t_coeff K tl) = false -> x = n0 K NO) ->
+  (forall x : K, nre_ltb K NO (n0 K NO) (nabs K NO x) = false -> x = n0 K NO) ->
+  (forall (x : K) (d : nat), abs_lt K NO x (ndiv K NO (t_neg_nr K tl) (nofZ K NO (Z.of_nat d))) = true -> x = n0 K NO) ->
+  (forall (x : K) (d : nat), abs_lt K NO x (ndiv K NO (t_neg_r K tl) (nofZ K NO (Z.of_nat d))) = true -> x = n0 K NO) ->
+  nofZ K NO 1%Z = n1 K NO -> nofZ K NO (-1)%Z = nopp K NO (n1 K NO) ->
+  (forall a b : Z, nofZ K NO (a + b)%Z = nadd K NO (nofZ K NO a) (nofZ K NO b)) ->
+  (forall z : Z, (0 < z)%Z -> nofZ K NO z <> n0 K NO) ->
+  forall (g : nat) (fz sf : bool) (mode : Symm.symm_mode K) (spins : list nat) (h : poly K) (sy : Symm.symm K),
+  poly_in_range K (length spins) h ->
+  mode_uniform K sf mode (length spins) ->
+  Symm.symmetrize K (n0 K NO) (n1 K NO) (nadd K NO) (nmul K NO) (nsub K NO) (nopp K NO) kzero khalf fz sf mode spins h = Done sy ->
+  exists c Hs,
+    Symm.sc_compute K (n0 K NO) (nadd K NO) (nsub K NO) (nopp K NO) kzero (length spins) (Symm.sy_ops sy) = Done c /\
+    spine_hblocks K NO fb eps (bridge (length spins) c) h = Done Hs /\
+    forall ED : eigdata K, eig_ok K (bridge (length spins) c) ED ->
+    (forall b, b < length (sc_states (bridge (length spins) c)) ->
+       eigensystem K NO (block_size (bridge (length spins) c) b) (nth b Hs []) (Uof K ED b) (Eof K ED b)) ->
+    eigensystem K NO (Nat.pow 2 (length spins)) (poly_matrix K NO (length spins) h)
+                (assembled_U K NO (bridge (length spins) c) ED) (assembled_E K ED) /\
+    forall (beta : K) (i j k l : nat), i < length spins -> j < length spins -> k < length spins -> l < length spins ->
+    cmp_exact K NO (t_cmp_nr K tl) (pole_list K NO (Nat.pow 2 (length spins)) (assembled_E K ED)) ->
+    cmp_exact K NO (t_cmp_r K tl) (pole_list K NO (Nat.pow 2 (length spins)) (assembled_E K ED)) ->
+    forall s : gf_st K,
+    spine_chi K NO keepf fb eps g tl (bridge (length spins) c) ED beta i j k l = Done s ->
+    exists D, spine_dm K NO beta (bridge (length spins) c) ED = Done D /\
+      forall z1 z2 z3 : K,
+      chi_regular6 K NO tl (Nat.pow 2 (length spins)) (assembled_E K ED) (assembled_w K D) z1 z2 z3 ->
+      Chi.gf_value K NO tl s z1 z2 z3 =
+      Done (chi K NO beta (t_reduce K tl) (assembled_E K ED) (assembled_w K D)
+              (rotate K NO (Nat.pow 2 (length spins)) (assembled_U K NO (bridge (length spins) c) ED) (op_matrix K NO (length spins) (cann i)))
+              (rotate K NO (Nat.pow 2 (length spins)) (assembled_U K NO (bridge (length spins) c) ED) (op_matrix K NO (length spins) (cann j)))
+              (rotate K NO (Nat.pow 2 (length spins)) (assembled_U K NO (bridge (length spins) c) ED) (op_matrix K NO (length spins) (cdag k)))
+              (rotate K NO (Nat.pow 2 (length spins)) (assembled_U K NO (bridge (length spins) c) ED) (op_matrix K NO (length spins) (cdag l)))
+              z1 z2 z3).
+Proof. exact SpineChiBridge.spine_chi_of_hamiltonian. Qed.
+Print Assumptions spine_chi_of_hamiltonian.
+
+(** * Non-vacuity on a non-trivial partition: chi_{0110} of the Hubbard atom at the resonant triple through the PARTITIONED pipeline, the
+    (N, S_z) partition computed by the Symm model (hub_sy, hub_c: four blocks of one state); every hypothesis of
+    [spine_chi_symmetry_partition] discharged; value 64/459 = the value of the one-block run; six parts on six different chains *)
+Theorem hubbard_atom_chi_symmetry_partition :
+  exists s D,
+    hub_sy_run = Done hub_sy /\ qc_sc_compute 2 (Symm.sy_ops hub_sy) = Done hub_c /\
+    Symm.sc_blocks hub_c = [[0]; [1]; [2]; [3]] /\
+    hub_chi_run4 = Done s /\ spine_dm Qcanon.Qc QcD (n1 _ QcD) (bridge 2 hub_c) ED4 = Done D /\
+    Chi.gf_value Qcanon.Qc QcD TLD s chi_z1 chi_z2 chi_z3 =
+    Done (chi Qcanon.Qc QcD (n1 _ QcD) eps_half (assembled_E Qcanon.Qc ED4) (assembled_w Qcanon.Qc D)
+            (rotate Qcanon.Qc QcD 4 (assembled_U Qcanon.Qc QcD (bridge 2 hub_c) ED4) (op_matrix Qcanon.Qc QcD 2 (cann 0)))
+            (rotate Qcanon.Qc QcD 4 (assembled_U Qcanon.Qc QcD (bridge 2 hub_c) ED4) (op_matrix Qcanon.Qc QcD 2 (cann 1)))
+            (rotate Qcanon.Qc QcD 4 (assembled_U Qcanon.Qc QcD (bridge 2 hub_c) ED4) (op_matrix Qcanon.Qc QcD 2 (cdag 1)))
+            (rotate Qcanon.Qc QcD 4 (assembled_U Qcanon.Qc QcD (bridge 2 hub_c) ED4) (op_matrix Qcanon.Qc QcD 2 (cdag 0)))
+            chi_z1 chi_z2 chi_z3).
+Proof. exact SpineChiPartitionExamples.hub_chi_symmetry_spine. Qed.
+Print Assumptions hubbard_atom_chi_symmetry_partition.
+
+Theorem hubbard_atom_chi_partition_value :
+  hub_chi_value4 = Qcanon.Q2Qc (QArith_base.Qmake 64%Z 459%positive) /\ hub_chi_value4 = hub_chi_value /\ hub_chi_value4 <> n0 _ QcD /\
+  match hub_chi_run4 with
+  | Done s => map (fun pq => p_blocks Qcanon.Qc (fst pq)) (g_parts Qcanon.Qc s) =
+              [(0, 1, 3, 1); (0, 2, 3, 1); (0, 2, 0, 1); (2, 3, 1, 3); (2, 0, 1, 3); (2, 0, 2, 3)]%Z /\
+              existsb resonant_term_fires (g_parts Qcanon.Qc s) = true
+  | _ => False
+  end /\
+  assembled_E Qcanon.Qc ED4 = hub_E /\ assembled_U Qcanon.Qc QcD (bridge 2 hub_c) ED4 = hub_U.
+Proof. exact SpineChiPartitionExamples.hub_chi_value4_resonant. Qed.
+Print Assumptions hubbard_atom_chi_partition_value.
+
+Theorem hubbard_atom_chi_of_hamiltonian :
+  exists Hs s D,
+    hub_class_run = Done hub_c /\ spine_hblocks Qcanon.Qc QcD true eps_half (bridge 2 hub_c) hub_h = Done Hs /\
+    (forall b, b < 4 -> eigensystem Qcanon.Qc QcD (block_size (bridge 2 hub_c) b) (nth b Hs []) (Uof Qcanon.Qc ED4 b) (Eof Qcanon.Qc ED4 b)) /\
+    eigensystem Qcanon.Qc QcD 4 (poly_matrix Qcanon.Qc QcD 2 hub_h) (assembled_U Qcanon.Qc QcD (bridge 2 hub_c) ED4) (assembled_E Qcanon.Qc ED4) /\
+    hub_chi_run4 = Done s /\ spine_dm Qcanon.Qc QcD (n1 _ QcD) (bridge 2 hub_c) ED4 = Done D /\
+    Chi.gf_value Qcanon.Qc QcD TLD s chi_z1 chi_z2 chi_z3 =
+    Done (chi Qcanon.Qc QcD (n1 _ QcD) eps_half (assembled_E Qcanon.Qc ED4) (assembled_w Qcanon.Qc D)
+            (rotate Qcanon.Qc QcD 4 (assembled_U Qcanon.Qc QcD (bridge 2 hub_c) ED4) (op_matrix Qcanon.Qc QcD 2 (cann 0)))
+            (rotate Qcanon.Qc QcD 4 (assembled_U Qcanon.Qc QcD (bridge 2 hub_c) ED4) (op_matrix Qcanon.Qc QcD 2 (cann 1)))
+            (rotate Qcanon.Qc QcD 4 (assembled_U Qcanon.Qc QcD (bridge 2 hub_c) ED4) (op_matrix Qcanon.Qc QcD 2 (cdag 1)))
+            (rotate Qcanon.Qc QcD 4 (assembled_U Qcanon.Qc QcD (bridge 2 hub_c) ED4) (op_matrix Qcanon.Qc QcD 2 (cdag 0)))
+            chi_z1 chi_z2 chi_z3) /\
+    Chi.gf_value Qcanon.Qc QcD TLD s chi_z1 chi_z2 chi_z3 = Done (Qcanon.Q2Qc (QArith_base.Qmake 64%Z 459%positive)).
+Proof. exact SpineChiPartitionExamples.hub_chi_of_hamiltonian. Qed.
+Print Assumptions hubbard_atom_chi_of_hamiltonian.
